@@ -33,6 +33,15 @@ def disjoint_pairs(labels):
 
 
 def cases(tier, rng, boost=1):
+    # many states (beyond the 8-bit range, labels beyond the 16-bit range), narrow per-array dtypes
+    brng = core.Rng(43)
+    for lo, hi in ((0, 300), (-150, 150), (32000, 33100), (65000, 66000)):
+        t = [[brng.randrange(lo, hi) if brng.random() < 0.7 else lo for _ in range(500)] for _k in range(2)]
+        occ = sorted({x for tt in t for x in tt})
+        S, F = [lo, occ[1]], [occ[-1], occ[-2]]
+        for form in ('per_array_narrow', 'list_of_lists'):
+            yield _mk('md_wt', t, S, F, form=form, src='corpus-big')
+            yield _mk('md_paths', t, S, F, form=form, src='corpus-big')
     yield _mk('md_wt', [[1, 2, 3, 1, 3], [3, 1, 2, 3]], [1], [3], src='corpus')
     yield _mk('md_paths', [[1, 2, 1, 2, 4, 2, 3]], [1], [3], src='corpus')
     yield _mk('md_wt', [[1, 2, 3]], [1, 7], [3], src='corpus')            # absent label mixed with present
